@@ -49,7 +49,7 @@ def required(tier):
     req += ['f12.frob/%d' % k for k in (1, 2, 3, 6)] + ['f12.mul/cancel', 'f4.mul/cancel']
     req += ['f12.fexp', 'f12.fexp2', 'f12.fexp/zero', 'f12.fexp2/zero', 'f12.first', 'f12.last1', 'f12.last2', 'f12.fexp/non-unitary', 'f12.fexp/subfield',
             'ml.jac', 'ml.prep', 'ml.agree', 'ml.jac/Q-aff', 'ml.jac/Q-scaled', 'ml.jac/Q-jac', 'carry.f4mul/0', 'carry.f4mul/1', 'carry.f4mul/2', 'class/sparse', 'class/unitary', 'class/max-carry',
-            'class/subfield', 'class/uniform', 'class/limbs', 'class/norm-one', 'class/near-one']
+            'class/subfield', 'class/uniform', 'class/limbs', 'class/norm-one', 'class/near-one', 'class/root-of-near-one']
     return req
 
 
@@ -229,6 +229,22 @@ def run(ctx, spec):
             add('_ f12.nonres %s' % A, 'f12.nonres', 'ok ' + h12(fmul(a, rm.W)), ('nonres', A), nz(a))
             e = rng.choice(EXPS + [rng.getrandbits(128), rng.getrandbits(rng.randrange(1, 129))])
             add('_ f12.pow128 %s %x' % (A, e), 'f12.pow128', 'ok ' + h12(fpow(a, e)), ('pow128', A, e), nz(a))
+            if rng.random() < 0.12:
+                # an element whose SQUARE (or fourth power) is identity-like: one plus a perturbation confined to one coefficient
+                # block - the running square of a square-and-multiply loop then looks like one to a careless is_one test
+                near = [0] * 12
+                near[0] = 1
+                for e_ in rng.choice([[1, 4, 7, 10], [2, 5, 8, 11], [2], [8, 11], [4]]):
+                    near[e_] = rng.randrange(1, q)
+                rt = rm.f12_sqrt(near)
+                if rt is not None and rng.random() < 0.3:
+                    rt = rm.f12_sqrt(rt) or rt
+                if rt is not None:
+                    ctx.classes['class/root-of-near-one'] += 1
+                    Rt = h12(rt)
+                    for e2 in (2, 3, 4, 9, S, 0x2400000000215d941, 0xd8000000019062ed0000b98b0cb27659):
+                        add('_ f12.pow128 %s %x' % (Rt, e2), 'f12.pow128', 'ok ' + h12(fpow(rt, e2)), ('pow128', Rt, e2), True)
+                    add('_ f12.powfr %s %s' % (Rt, h32(9)), 'f12.powfr', 'ok ' + h12(fpow(rt, 9)), ('powfr', Rt, 9), True)
             k = gen.scalar_r(rng)[0]
             add('_ f12.powfr %s %s' % (A, h32(k)), 'f12.powfr', 'ok ' + h12(fpow(a, k)), ('powfr', A, k), nz(a))
             add('_ f12.add %s %s' % (A, B), 'f12.add', 'ok ' + h12(fadd(a, b)), ('add', A, B), nz(a))
